@@ -25,6 +25,9 @@
 (*                        three consecutive sampled pressures            <= 10^-7 (QUADPACK epsrel 1.49e-8/integral) *)
 (*    flags  zero_at_reference      pseudopressure_Hussainy(T, 14.7, ...) = 0 exactly (default reference)        *)
 (*           zero_at_own_reference  pseudopressure_Hussainy(T, p, ..., pressure_standard = p) = 0 exactly       *)
+(*           zero_at_zero_reference pseudopressure_Hussainy(T, 0, ..., pressure_standard = 0) = 0 exactly (the   *)
+(*                                  textbook base of the integral; a reference of 0 is a reference)              *)
+(*    agree  additive_zero  every fourth sampled row: m(0 -> p) = m(0 -> 14.7) + m(14.7 -> p)   <= 10^-7         *)
 (* profile "alone": the stand-alone transform on random positive tables (2..64 rows, non-uniform grids).        *)
 (*    vals   m_norm  = m / m[last], strictly increasing                                                         *)
 (*    agree  exact   E15rel(m, the same trapezoid sum evaluated in exact rational arithmetic) <= 10^-13         *)
@@ -43,8 +46,9 @@ C08Rules ==
               need     |-> {"none"}, minPoints |-> 20],
    quad  |-> [mono     |-> [m_quad |-> Inc],
               agreeMax |-> [quad_pairs |-> [max |-> 4 * 1000000, where |-> "all"],
-                            additive   |-> [max |-> 100000000,   where |-> "all"]],
-              mustTrue |-> {"zero_at_reference", "zero_at_own_reference", "finite"},
+                            additive   |-> [max |-> 100000000,   where |-> "all"],
+                            additive_zero |-> [max |-> 100000000, where |-> "all"]],
+              mustTrue |-> {"zero_at_reference", "zero_at_own_reference", "zero_at_zero_reference", "finite"},
               need     |-> {"none"}, minPoints |-> 12],
    alone |-> [mono     |-> [m_norm |-> Inc],
               agreeMax |-> [exact  |-> [max |-> 100,  where |-> "all"],
